@@ -273,6 +273,11 @@ class Check(PropCheck):
             Check._conn.send(d)
             if Check._conn.poll(hard):
                 res = Check._conn.recv()
+                if len(res) == 4:
+                    # library lines the worker executed for the first time (source-reach measurement, core/srccov)
+                    from .. import srccov
+                    srccov._hits.update(tuple(h) for h in res[3])
+                    res = res[:3]
             else:
                 raise TimeoutError()
         except (TimeoutError, EOFError, BrokenPipeError, OSError):
@@ -383,6 +388,8 @@ def _worker_main(conn):
         impl = Check.impl_inproc
         oracle = Check.oracle_inproc
     chk = Inner()
+    from .. import srccov
+    sent = set()
     while True:
         try:
             d = conn.recv()
@@ -402,7 +409,10 @@ def _worker_main(conn):
                 impl_out = '(skipped-nonascii-names)'
         except Exception:
             pass
-        conn.send((impl_out, safe_oracle(chk, d), payload))
+        verdict = safe_oracle(chk, d)
+        new = srccov._hits - sent
+        sent |= new
+        conn.send((impl_out, verdict, payload, sorted(new)))
 
 
 class _TextFile(io.TextIOWrapper):
